@@ -613,7 +613,12 @@ func (d *PathDecoder) collectInferredReferenceTargetsForBody(addr lang.Address, 
 			blockRef.TargetableFromRangePtr = selfRefBodyRangePtr.Ptr()
 		}
 
-		for i, b := range bCollection.Blocks {
+		first := true
+		for _, b := range bCollection.Blocks {
+			if len(b.Labels) == 0 {
+				// a map block is keyed by its first label; without one there is no element address
+				continue
+			}
 			elemAddr := append(blockAddr.Copy(), lang.IndexStep{
 				Key: cty.StringVal(b.Labels[0]),
 			})
@@ -641,7 +646,8 @@ func (d *PathDecoder) collectInferredReferenceTargetsForBody(addr lang.Address, 
 			sort.Sort(elemRef.NestedTargets)
 			blockRef.NestedTargets = append(blockRef.NestedTargets, elemRef)
 
-			if i == 0 {
+			if first {
+				first = false
 				blockRef.RangePtr = elemRef.RangePtr
 			} else {
 				// try to expand the range of the "parent" (map) reference
